@@ -297,6 +297,21 @@ func (w *world) waitSpread(pred func(*node) bool) int {
 	return c
 }
 
+// seen renders what an update op observed.  The statements are about CONNECTED instances: when fewer than all nodes hold the
+// update and, at that moment, some live node does not see every live node as a member (memberlist declared one dead — a starved
+// machine — and has not re-joined it yet), the observation says so (` split`) and the driver does not judge it.
+func (w *world) seen(c int) string {
+	out := fmt.Sprintf("seen=%d/%d", c, len(w.live()))
+	if c < len(w.live()) {
+		for _, m := range w.live() {
+			if m.peer.ClusterSize() != len(w.live()) {
+				return out + " split"
+			}
+		}
+	}
+	return out
+}
+
 func (w *world) exec(line string) string {
 	t := strings.Fields(line)
 	switch t[0] {
@@ -317,7 +332,7 @@ func (w *world) exec(line string) string {
 		}
 		w.sils = append(w.sils, s.Id)
 		c := w.waitSpread(func(n *node) bool { return n.hasSil(s.Id) })
-		return fmt.Sprintf("seen=%d/%d", c, len(w.live()))
+		return w.seen(c)
 	case "nfl":
 		i, _ := strconv.Atoi(t[1])
 		nf := 2
@@ -334,7 +349,7 @@ func (w *world) exec(line string) string {
 		}
 		w.gkeys = append(w.gkeys, gk)
 		c := w.waitSpread(func(n *node) bool { return n.hasLog(gk) })
-		return fmt.Sprintf("seen=%d/%d", c, len(w.live()))
+		return w.seen(c)
 	case "fact":
 		return appSetupOrder()
 	case "prejoin":
@@ -377,8 +392,8 @@ func (w *world) exec(line string) string {
 			time.Sleep(20 * time.Millisecond)
 		}
 		w.sils = append(w.sils, small)
-		c := w.waitAll(func(n *node) bool { return n.hasSil(small) })
-		return fmt.Sprintf("seen=%d/%d", c, len(w.live()))
+		c := w.waitSpread(func(n *node) bool { return n.hasSil(small) })
+		return w.seen(c)
 	case "burst":
 		// n small silences and n small log entries are created back-to-back on node i (no waiting in between: all of them
 		// are queued for gossip within one gossip interval), then every node must come to hold all of them.  The settle
@@ -418,7 +433,7 @@ func (w *world) exec(line string) string {
 			}
 			return true
 		})
-		return fmt.Sprintf("seen=%d/%d", c, len(w.live()))
+		return w.seen(c)
 	case "rejoin":
 		// node i is killed (no leave is announced) and a NEW instance (new name, empty state) starts on the same
 		// address at once, as a restarted process does; the others learn of the new name by gossip and of the old name's
@@ -645,9 +660,16 @@ func TestEngine(t *testing.T) {
 		if id == 0 {
 			ops = append(ops, "fact app-setup")
 		}
-		ops = append(ops, "join")
-		if id%2 == 1 {
+		// one more member (a plain late joiner, or — odd cases — one that has an update queued before it joins); clusters stay at
+		// four members or fewer, where every gossip round of a member reaches all the others (GossipNodes = 3): what is observed
+		// within `settle` does not depend on memberlist's random choice of gossip targets
+		if id%2 == 1 && n >= 3 {
 			ops = append(ops, "prejoin")
+		} else {
+			ops = append(ops, "join")
+			if id%2 == 1 {
+				ops = append(ops, "prejoin")
+			}
 		}
 		ops = append(ops, fmt.Sprintf("sil %d big", r.IntN(n+1)), fmt.Sprintf("nfl %d small", r.IntN(n+1)))
 		ops = append(ops, fmt.Sprintf("burst %d %d", r.IntN(n+1), 2+r.IntN(4)))
